@@ -43,6 +43,8 @@ def t_types(rep, prog, rule):
     if not variants or len(pt) < 13:
         raise CheckError("PixelType variants / InnerPixel impls not found")
     n = 0
+    majority = {}          # table function -> callee id most of its arms call
+    deviants = []
     for name in TABLE_FNS:
         f = prog.fn_by_name(name)
         rep.touch(f)
@@ -90,22 +92,26 @@ def t_types(rep, prog, rule):
         by = {}
         for c in arms:
             by.setdefault(c.id, []).append(c)
-        if len(by) > 1:
+        if by:
             top = max(by.values(), key=len)
+            majority[name] = top[0].id
             for cid, cs in sorted(by.items()):
                 if cs is top:
                     continue
                 for c in cs:
-                    k2 = "%s|%s|callee" % (name, ",".join(t.replace("pixels::Pixel", "P")
-                                                          for t in c.targs() if t in pt))
-                    if len(cs) * 2 < len(top):
-                        rep.bad(rule, k2, c.at, "%s: this arm calls %s, the other %d arms call %s: the "
-                                "dynamic entry point does another operation for this pixel type than "
-                                "the typed one" % (name, c.name, len(top), top[0].name))
-                    else:
-                        rep.unk(rule, k2, c.at, "arms call %s and %s" % (c.name, top[0].name))
-        elif arms:
-            rep.ok(rule, "%s|callee" % name, f.loc, "all %d arms call %s" % (len(arms), arms[0].name))
+                    deviants.append((name, c, len(cs), top))
+            if len(by) == 1:
+                rep.ok(rule, "%s|callee" % name, f.loc, "all %d arms call %s" % (len(arms), arms[0].name))
+    for (name, c, k, top) in deviants:
+        k2 = "%s|%s|callee" % (name, ",".join(t.replace("pixels::Pixel", "P") for t in c.targs() if t in pt))
+        other = [t for t, cid in majority.items() if cid == c.id and t != name]
+        if other and k * 2 < len(top):
+            rep.bad(rule, k2, c.at, "%s: this arm calls %s -- the function the arms of %s call -- while the "
+                    "other %d arms call %s: the dynamic entry point does another operation for this "
+                    "pixel type than the typed one" % (name, c.name, other[0], len(top), top[0].name))
+        else:
+            rep.unk(rule, k2, c.at, "this arm calls %s, most arms call %s (a specialised routine for one "
+                    "pixel type?)" % (c.name, top[0].name))
     rep.floor(rule, "typed instantiations in PixelType tables", n, 60)
 
 
